@@ -344,7 +344,7 @@ func mutate(toks []gram.Tok, kinds []string) []gram.Tok {
 	return r
 }
 
-func parseMode(sents []sentence, mutations int, enum int, enumKeep float64, trailing bool) {
+func parseMode(sents []sentence, mutations int, enum int, enumKeep float64, trailing bool, substKeep float64) {
 	var allKinds []string
 	for _, tt := range gram.AllKinds() {
 		k := gram.KindName(tt)
@@ -365,6 +365,41 @@ func parseMode(sents []sentence, mutations int, enum int, enumKeep float64, trai
 			o := sents[rng.Intn(len(sents))]
 			emitP("trailing", c.Text(append(append([]gram.Tok{}, s.S...), o.S...)))
 		}
+	}
+	// every expectation of the parser x every token kind: for each distinct (rule owning the position, expected
+	// kind) the shortest sentence that has such a position, with that token replaced by each other kind
+	// (the rest of the sentence kept) - what the parser does at a position depends on exactly this pair
+	type ctxKey struct{ own, k string }
+	type ctxPos struct {
+		s   []gram.Tok
+		pos int
+	}
+	ctx := map[ctxKey]ctxPos{}
+	var order []ctxKey
+	for _, s := range sents {
+		for i, t := range s.S {
+			key := ctxKey{t.Own, t.K}
+			if old, ok := ctx[key]; !ok || len(s.S) < len(old.s) {
+				if !ok {
+					order = append(order, key)
+				}
+				ctx[key] = ctxPos{s.S, i}
+			}
+		}
+	}
+	if substKeep > 0 {
+		for _, key := range order {
+			cp := ctx[key]
+			for _, k := range allKinds {
+				if k == key.k || (substKeep < 1 && rng.Float64() >= substKeep) {
+					continue
+				}
+				m := append([]gram.Tok{}, cp.s...)
+				m[cp.pos] = gram.Tok{K: k}
+				emitP("substitution", c.Text(m))
+			}
+		}
+		stats["p:contexts"] = len(order)
 	}
 	// exhaustively all kind sequences up to length enum (a seeded fraction enumKeep of the longest ones)
 	var rec func(prefix []gram.Tok, depth int)
@@ -689,6 +724,7 @@ func main() {
 	enum := fs.Int("enum", 0, "all kind sequences up to this length")
 	enumKeep := fs.Float64("enum-keep", 1, "fraction of the longest sequences kept (seeded)")
 	trailing := fs.Bool("trailing", false, "also sentences followed by further tokens")
+	substKeep := fs.Float64("subst-keep", 0, "parse mode: fraction of the (expected token, offered kind) substitutions to run")
 	nbases := fs.Int("bases", 20, "history mode: statements cut at every position")
 	nprobes := fs.Int("probes", 10, "history mode: probe statements")
 	nrandom := fs.Int("random", 200, "history mode: random histories")
@@ -702,7 +738,7 @@ func main() {
 	case "witness":
 		witness(sents)
 	case "parse":
-		parseMode(sents, *mutations, *enum, *enumKeep, *trailing)
+		parseMode(sents, *mutations, *enum, *enumKeep, *trailing, *substKeep)
 	case "history":
 		historyMode(sents, *nbases, *nprobes, *nrandom)
 	default:
